@@ -53,6 +53,9 @@ SCENARIOS += [
     {"name": "early-release-call-by-requestor-then-acceptor-releases", "ops": [], "end": "wait", "server": ["release", "idle"],
      "early_release": "req"},
     {"name": "early-release-call-by-acceptor-then-requestor-releases", "ops": ["echo"], "end": "release", "early_release": "acc"},
+    # staggered double abort while the provider is held up in its AA-1 transition notification: a second A-ABORT request, if one
+    # gets past the guard, is then processed in Sta13
+    {"name": "second-abort-after-first-was-sent-slow-provider", "ops": ["echo"], "end": "abort2-staggered", "slow": {"req|AA-1": 0.15}},
     {"name": "release-short-artim-slow-handler", "ops": ["echo"], "end": "release", "short_artim": "acc", "slow": {"acc|AR-4": 0.15}},
     # a second user thread of the requestor releases while its own C-ECHO is still being served by a slow handler ...
     {"name": "release-from-second-thread-during-own-echo", "ops": ["echo-bg"], "end": "release", "handler": "block"},
